@@ -65,6 +65,18 @@ def check(ctx, src):
         ctx.check(ok, "OUTERVAR-RESOLVE", f"{SC}|visit_OuterVar|global arm", f"module-scope arm is {t}", SC, g.lineno,
                   witness="(setv x 1) (defn f [] (nonlocal x) (setv x 2)) no longer compiles to `global x`", detail="Global(undefined) when all are defined at module level; else fall back to Nonlocal")
         ctx.check(oknl, "OUTERVAR-RESOLVE", f"{SC}|visit_OuterVar|nonlocal part", "the names found in enclosing functions/lets must be emitted as Nonlocal in declaration order", SC, g.lineno, detail="ordered comprehension over node.names")
+    # the names found so far are *accumulated* over the enclosing scopes: the set the Nonlocal part filters by is never
+    # rebound inside the walk (only updated)
+    dset = None
+    for n in ast.walk(v):
+        if isinstance(n, ast.Compare) and len(n.ops) == 1 and isinstance(n.ops[0], ast.In) and isinstance(n.comparators[0], ast.Name) and isinstance(getattr(n, "_parent", None), ast.comprehension):
+            dset = n.comparators[0].id
+    rebinds = [n for n in ast.walk(loop) if isinstance(n, ast.Assign) and any(isinstance(t, ast.Name) and t.id == dset for t in n.targets)] if dset else []
+    grows = [n for n in ast.walk(loop) if (isinstance(n, ast.Call) and isinstance(n.func, ast.Attribute) and n.func.attr in ("update", "add") and isinstance(n.func.value, ast.Name) and n.func.value.id == dset)
+             or (isinstance(n, ast.AugAssign) and isinstance(n.target, ast.Name) and n.target.id == dset)] if dset else []
+    ctx.decide("OUTERVAR-RESOLVE", f"{SC}|visit_OuterVar|accumulate", None if dset is None or not (rebinds or grows) else (not rebinds and bool(grows)),
+               f"the set of names found in enclosing scopes (`{dset}`) is rebound inside the walk instead of accumulated: names found at an inner level are dropped from the emitted nonlocal", SC, loop.lineno,
+               witness="three nested functions, (nonlocal a g) with a from the outermost function and g global: the assignment to a creates a local", detail="defined.update(...)", local=True)
     upd = [norm(s) for s in loop.body[-2:]]
     ctx.check(upd == ["defined.update(has.intersection(undefined))", "undefined = [name for name in undefined if name not in has]"], "OUTERVAR-RESOLVE", f"{SC}|visit_OuterVar|bookkeeping",
               f"per-scope bookkeeping is {upd}", SC, loop.lineno, witness="a name defined in an enclosing function is also declared global", detail="defined += has∩undefined; undefined -= has")
